@@ -34,6 +34,11 @@ pub fn panic_signature(stderr: &str) -> Option<String> {
     // keep the stable head of the message: cut at the first ';' or quote (what follows usually
     // quotes input-dependent data)
     let msg = msg.split([';', '\'']).next().unwrap_or(msg).trim();
+    // ... and at the second colon ("not yet implemented: unhandled type: Some(Int16(9))")
+    let msg = match msg.match_indices(':').nth(1) {
+        Some((i, _)) => &msg[..i],
+        None => msg,
+    };
     let msg: String = msg.chars().filter(|c| !c.is_ascii_digit()).take(60).collect::<String>().replace(' ', "_");
     if let Some(k) = path.find("/registry/src/") {
         let tail = &path[k + 14..];
